@@ -13,7 +13,10 @@ text must be accepted, its model must have the same structure (classes,
 attribute names, list lengths, reference targets, primitive type tags and
 non-string values; strings equal up to letter case); values of attributes that
 are only ever assigned from ID or a regex literal must occur verbatim in the
-text they were read from, ID-only attributes must be identical in both.
+text they were read from, ID-only attributes must be identical in both; values
+of attributes only ever assigned from string literals must be the grammar's
+spelling and identical in both; every such value must be the value of a
+terminal of the text's own real parse tree.
 
 Model side (Lean, Drivers/Case.lean): the Arpeggio mirror runs on the *dumped
 real parser model*; string-token rows are computed by the Lean `StrMatch` model,
@@ -1168,7 +1171,10 @@ class Prop(Check):
             "separators, written with either quote and with escape sequences (\\\\ \\' \\\" \\n \\t \\xNN \\uNNNN "
             "\\UNNNNNNNN octal); regex literals with letters, escaped slashes, backslashes; targeted: keyword/regex/"
             "separator/ID templates; definitions + references through ID; the templates also as multi-file grammars "
-            "(import)) compiled with ignore_case=True x autokwd / skipws / ws / memoization options x HISTORIES (28 % of the "
+            "(import), a template with string literals as right-hand sides of assignments (=, alternatives, += with "
+            "separator, *= through a match rule that is a choice of literals)) compiled with ignore_case=True x autokwd / "
+            "skipws / ws / memoization options x model-construction options use_regexp_group (35 %) / "
+            "auto_init_attributes=False (8 %) x HISTORIES (28 % of the "
             "cases: 1-2 meta-models constructed and used earlier in the same process and / or one constructed after the "
             "meta-model under test and before its texts are parsed - the same grammar or another grammar with the same "
             "literals, with ignore_case and / or autokwd flipped; every case starts from the process state of a fresh "
